@@ -80,6 +80,14 @@ pub trait CharRead {
     fn peek_char(&mut self) -> Option<io::Result<char>>;
     fn put_back_char(&mut self, c: char);
     fn consume(&mut self, nread: usize);
+
+    /// Skips the bytes that `peek_char` / `read_char` reported as
+    /// invalid UTF-8, so that the next read continues after them.
+    fn skip_bad_bytes(&mut self, e: &io::Error) {
+        if let Some(bad) = e.get_ref().and_then(|e| e.downcast_ref::<BadUtf8Error>()) {
+            self.consume(bad.bytes.len());
+        }
+    }
 }
 
 impl<R> CharReader<R> {
